@@ -1,6 +1,8 @@
 package main
 
 import (
+	"fmt"
+	"go/constant"
 	"go/ast"
 	"go/token"
 	"go/types"
@@ -285,6 +287,7 @@ func rulePrint(c *Ctx) {
 	n += printNil(c)
 	n += printPrec(c)
 	n += printGreater(c)
+	n += printListComplete(c)
 	c.atLeast("printer obligations", n, 120)
 }
 
@@ -1232,6 +1235,75 @@ func printGreater(c *Ctx) int {
 			detector.Name.Name+" has no case for "+name+", whose printer writes a child at or below the comparison level without parentheses: a `>` inside it is printed bare in a print argument list")
 	}
 	c.atLeast("node types that can hold a bare >", need, 4)
+	// the other construct the print grammar does not take bare (R-GRAMMAR: the print context has no getline level):
+	// `cmd | getline`. In a list of several arguments it needs the list's parentheses just like a > comparison, so the
+	// detector, evaluated on its SSA form for a GetlineExpr whose Command is set (and answering "no" for whatever
+	// is inside the command), must say yes
+	if dfn := c.ssaFunc("internal/ast", detector.Name.Name); dfn != nil && len(dfn.Params) == 1 {
+		e := &sengine{pkg: c.ssaPkg("internal/ast"), ctx: c}
+		prm := dfn.Params[0]
+		e.param = func(f *ssa.Function, p *ssa.Parameter) (iv, bool) {
+			if p == prm && f == dfn {
+				return ivSym("e"), true
+			}
+			return iv{}, false
+		}
+		e.typeAssert = func(fr *sframe, x *ssa.TypeAssert, v iv) (iv, bool) {
+			if v.k != 's' || v.s != "e" {
+				return iv{}, false
+			}
+			is := false
+			if nm := named(deref(x.AssertedType)); nm != nil && nm.Obj().Name() == "GetlineExpr" {
+				is = true
+			}
+			val := iv{}
+			if is {
+				val = ivSym("g")
+			}
+			if x.CommaOk {
+				return ivTuple(val, ivBool(is)), true
+			}
+			return val, is
+		}
+		e.load = func(p *spath, fr *sframe, addr iv, in *ssa.UnOp) (iv, bool) {
+			if addr.k == 'p' && addr.s == "g.Command" {
+				return ivSym("cmd"), true
+			}
+			return iv{}, false
+		}
+		e.binop = func(op token.Token, a, b iv) (iv, bool) {
+			// a set Command compared with nil
+			if (a.k == 's' && a.s == "cmd" && b.k == 'n') || (b.k == 's' && b.s == "cmd" && a.k == 'n') {
+				return ivBool(op == token.NEQ), op == token.NEQ || op == token.EQL
+			}
+			return iv{}, false
+		}
+		e.call = func(p *spath, fr *sframe, call *ssa.Call, callee *ssa.Function, args []iv) (iv, callAction) {
+			if callee == dfn {
+				return ivBool(false), callHandled // nothing inside the command asks for parentheses
+			}
+			return iv{}, callDefault
+		}
+		e.enter = func(callee *ssa.Function, args []iv) bool { return callee != dfn }
+		e.startAt(dfn, dfn.Blocks[0], nil)
+		yes, other := 0, 0
+		for _, o := range e.outcomes {
+			if o.panicked {
+				continue
+			}
+			if o.ret.k == 'b' && o.ret.b {
+				yes++
+			} else {
+				other++
+			}
+		}
+		n++
+		c.check(yes > 0 && other == 0 && len(e.problems) == 0, "print-greater:pipe-getline", detector.Pos(),
+			detector.Name.Name+" answers yes for `cmd | getline` (the list is then written in parentheses)",
+			detector.Name.Name+" does not answer yes for a piped getline (GetlineExpr with a Command): `print (\"cmd\" | getline x, y)` is printed as `print \"cmd\" |getline x, y`, where the | is read as print's output pipe - the printed program does not parse or means something else")
+	} else {
+		c.undecided("print-greater:pipe-getline", detector.Pos(), "the detector %s is not resolvable on the SSA form", detector.Name.Name)
+	}
 	return n
 }
 
@@ -1296,4 +1368,82 @@ func binaryPrecedences(c *Ctx) map[string]int64 {
 		}
 	}
 	return out
+}
+
+// printListComplete: a printer never shows only part of a list. In package ast every use of one fixed element F[k] of
+// a list-valued node field (statements of a block, indexes, arguments) is made only where the list is known to have
+// exactly k+1 elements (a dominating `len(F) == k+1`); everything else goes over the whole list (range, or the list
+// handed on as a whole). A path that prints `Else[0]` whenever the list is non-empty silently drops the rest.
+func printListComplete(c *Ctx) int {
+	n := 0
+	for _, fn := range c.srcFuncs("internal/ast") {
+		fn := fn
+		allInstrs(fn, func(in ssa.Instruction) {
+			var base, idx ssa.Value
+			switch x := in.(type) {
+			case *ssa.IndexAddr:
+				base, idx = x.X, x.Index
+			case *ssa.Index:
+				base, idx = x.X, x.Index
+			default:
+				return
+			}
+			k, ok := idx.(*ssa.Const)
+			if !ok || k.Value == nil {
+				return
+			}
+			kv, ok := constant.Int64Val(k.Value)
+			if !ok {
+				return
+			}
+			f, holder := loadedField(base)
+			if f == nil || holder == nil {
+				return
+			}
+			if _, isSl := f.Type().Underlying().(*types.Slice); !isSl {
+				return
+			}
+			if nm := named(deref(holder.Type())); nm == nil || nm.Obj().Pkg() == nil || nm.Obj().Pkg().Path() != modPath+"/internal/ast" {
+				return
+			}
+			n++
+			guarded := false
+			for _, g := range fn.Blocks {
+				if len(g.Instrs) == 0 || !g.Dominates(in.Block()) || g == in.Block() {
+					continue
+				}
+				ifi, ok := g.Instrs[len(g.Instrs)-1].(*ssa.If)
+				if !ok {
+					continue
+				}
+				bo, ok := ifi.Cond.(*ssa.BinOp)
+				if !ok || bo.Op != token.EQL {
+					continue
+				}
+				lc, ok := bo.X.(*ssa.Call)
+				if !ok {
+					continue
+				}
+				if b, isB := lc.Call.Value.(*ssa.Builtin); !isB || b.Name() != "len" || len(lc.Call.Args) != 1 {
+					continue
+				}
+				if lf, lh := loadedField(lc.Call.Args[0]); lf != f || lh != holder {
+					continue
+				}
+				if kk, ok := bo.Y.(*ssa.Const); !ok || kk.Value == nil || kk.Value.ExactString() != fmt.Sprint(kv+1) {
+					continue
+				}
+				// reached through the true edge only
+				if reachableAvoiding(g.Succs[1], g)[in.Block()] {
+					continue
+				}
+				guarded = true
+			}
+			key := fmt.Sprintf("list-complete:%s:%s[%d]", fnKey(fn), f.Name(), kv)
+			c.check(guarded, key, in.Pos(), fmt.Sprintf("element %d of %s is used only where the list has exactly %d element(s)", kv, f.Name(), kv+1),
+				fmt.Sprintf("%s uses element %d of the list %s without the list being known to have exactly %d element(s): the other elements are not printed on that path, so the printed program is a different program", fnKey(fn), kv, f.Name(), kv+1))
+		})
+	}
+	c.atLeast("fixed-position uses of list fields in package ast", n, 1)
+	return n
 }
